@@ -100,7 +100,7 @@ def tasks(tier):
         for n in ls[12:]:
             ts.append({"name": f"crc-bounded-{n}", "fn": "crc", "what": "bounded", "ns": [n]})
     else:
-        ts.append({"name": "crc-bounded-a", "fn": "crc", "what": "bounded", "ns": ls[:16]})
+        ts.append({"name": "crc-bounded-a", "fn": "crc", "what": "bounded", "ns": ls[:16], "cross": True})
         for n in ls[16:]:
             ts.append({"name": f"crc-bounded-{n}", "fn": "crc", "what": "bounded", "ns": [n]})
     return ts
@@ -113,7 +113,7 @@ def _viol(name, msg, detail):
             "observed": r["observed"]}
 
 
-def run_bounded(ns, timeout_s=900):
+def run_bounded(ns, timeout_s=900, cross=False):
     G = shimmed()
     M = G.modbus
     res = []
@@ -139,9 +139,18 @@ def run_bounded(ns, timeout_s=900):
         finally:
             M._CRC_16_TABLE = real_table
         dt = time.perf_counter() - t0
+        second = None
+        if cross and r == z3.unsat and n <= 24:
+            from vf.smt2 import cvc5_recheck
+            second = cvc5_recheck(s, "QF_BV", 300)
         ent = {"name": f"K-CRC bounded n={n}", "queries": 1, "solver_s": round(dt, 3), "obligations": 1,
                "discharged": 1 if r == z3.unsat else 0, "bounds": {"message_bytes": n}, "result": str(r),
                "sample": f"forall m in bytes^{n}: _modbus_checksum(m) == crc16_modbus(m)  -> {r}"}
+        if second is not None:
+            ent["second_solver"] = second
+            if second["result"] not in ("unsat", "unavailable"):
+                ent["discharged"] = 0
+                ent["inconclusive"] = f"cvc5 answered {second['result']} where z3 answered unsat"
         if r == z3.sat:
             m = s.model()
             msg = bytes(m.eval(b, model_completion=True).as_long() & 0xFF for b in bs)
@@ -225,7 +234,7 @@ def _search_concrete_difference():
 def run_task(task):
     if task["what"] == "inductive":
         return {"lemmas": run_inductive()}
-    return {"lemmas": run_bounded(task["ns"])}
+    return {"lemmas": run_bounded(task["ns"], cross=task.get("cross", False))}
 
 
 def replay(case):
